@@ -39,6 +39,11 @@ type Result struct {
 	Distribution map[string]int `json:"distribution"`
 	Notes        []string       `json:"notes,omitempty"`
 	Assumptions  []string       `json:"assumptions,omitempty"`
+	ViolTotal    int            `json:"violations_total"`
+	CorrTotal    int            `json:"correspondence_broken_total"`
+	violCount    int
+	corrCount    int
+	perKey       map[string]int
 	distinct     map[string]bool
 	knownSeen    map[string]bool
 	maxSamples   int
@@ -46,7 +51,7 @@ type Result struct {
 
 func New(prop, tier string, seed int64) *Result {
 	return &Result{Property: prop, Tier: tier, Seed: seed, Distribution: map[string]int{}, distinct: map[string]bool{},
-		knownSeen: map[string]bool{}, maxSamples: 5}
+		knownSeen: map[string]bool{}, maxSamples: 5, perKey: map[string]int{}}
 }
 
 func hash(v any) string {
@@ -99,13 +104,16 @@ func (r *Result) writeReplay(f *Finding) {
 	f.Path = p
 }
 
-const maxKept = 25
+const maxKept = 80
+const maxPerKey = 3
 
 func (r *Result) Violation(key, what string, replay any) {
 	r.mu.Lock()
 	defer r.mu.Unlock()
 	f := Finding{Kind: "violation", Key: key, What: what, Replay: replay}
-	if len(r.Violations) < maxKept {
+	r.violCount++
+	r.perKey["v|"+key]++
+	if len(r.Violations) < maxKept && r.perKey["v|"+key] <= maxPerKey {
 		r.writeReplay(&f)
 		f.Replay = nil
 		r.Violations = append(r.Violations, f)
@@ -116,7 +124,9 @@ func (r *Result) Corr(key, what string, replay any) {
 	r.mu.Lock()
 	defer r.mu.Unlock()
 	f := Finding{Kind: "correspondence", Key: key, What: what, Replay: replay}
-	if len(r.CorrBroken) < maxKept {
+	r.corrCount++
+	r.perKey["c|"+key]++
+	if len(r.CorrBroken) < maxKept && r.perKey["c|"+key] <= maxPerKey {
 		r.writeReplay(&f)
 		f.Replay = nil
 		r.CorrBroken = append(r.CorrBroken, f)
@@ -183,6 +193,7 @@ func (r *Result) Divergence(key, what string, implAgrees bool, replay any) {
 func (r *Result) Write(path string) error {
 	r.mu.Lock()
 	defer r.mu.Unlock()
+	r.ViolTotal, r.CorrTotal = r.violCount, r.corrCount
 	sort.Slice(r.Known, func(a, b int) bool { return r.Known[a].Key < r.Known[b].Key })
 	b, err := json.MarshalIndent(r, "", " ")
 	if err != nil {
